@@ -1,12 +1,14 @@
 #!/usr/bin/env python3
-"""Prints the catch matrix (markdown) from /verif/seeded/*/meta.json."""
-import json, glob, os
+"""Prints the catch matrix of DESIGN.md 10.4 (markdown) from /verif/seeded/*/meta.json."""
+import json, glob, os, re
 rows = []
 for d in sorted(glob.glob("/verif/seeded/*")):
     m = json.load(open(os.path.join(d, "meta.json")))
-    what = m.get("breaks", "").split(". ")[0][:170].replace("|", "/").replace("\n", " ")
-    rows.append((m["seed_id"], m["property"], ", ".join(m.get("files_changed", []))[:60], ", ".join(m["caught_by"]) or "**missed**", m.get("dev_seeds", ""), m.get("note", "")))
-print("| seeded change | property | file(s) | caught by (quick tier) | unexplained violations at seeds 1/2/3 (own check, dev bench) | note |")
-print("|---|---|---|---|---|---|")
-for r in rows:
-    print("| " + " | ".join(r) + " |")
+    what = re.sub(r"\s+", " ", m.get("breaks", "")).replace("|", "/")
+    what = what[:150] + ("…" if len(what) > 150 else "")
+    files = ", ".join(os.path.basename(f) for f in m.get("files_changed", []))[:48]
+    caught = ", ".join(m["caught_by"]) or "**missed**"
+    rows.append(f"| {m['seed_id']} | {files} | {what} | {caught} | {m.get('note', '')} |")
+print("| id | file(s) | change (beginning of the author's summary; full text in `seeded/<id>/meta.json`) | caught by (`./check <id> quick` exits 1) | note |")
+print("|---|---|---|---|---|")
+print("\n".join(rows))
